@@ -33,7 +33,7 @@
 using namespace uscxml;
 
 // ------------------------------------------------------------------ recording (per-thread buffers, relaxed global sequence)
-static std::atomic<uint64_t> gSeq(0);
+static std::atomic<uint64_t> gSeq(0), gAct(0);   // gAct: records other than schedule-point hits (activity of any session)
 static std::chrono::steady_clock::time_point gT0;
 struct Buf { std::vector<std::string> lines; std::string name; };
 static std::mutex gBufMutex;                 // only taken when a thread registers / at the final merge
@@ -41,16 +41,22 @@ static std::vector<Buf*> gBufs;
 static thread_local Buf* tBuf = NULL;
 static thread_local char tName[32] = "?";
 
+static std::atomic<int> gAnon(0);
 static Buf* buf() {
-	if (!tBuf) { tBuf = new Buf(); tBuf->name = tName; std::lock_guard<std::mutex> l(gBufMutex); gBufs.push_back(tBuf); }
+	if (!tBuf) {
+		if (tName[0] == '?') snprintf(tName, 32, "t%d", gAnon.fetch_add(1));   // threads the library starts (invoked sessions, delay queues) get distinct names
+		tBuf = new Buf(); tBuf->name = tName; std::lock_guard<std::mutex> l(gBufMutex); gBufs.push_back(tBuf);
+	}
 	return tBuf;
 }
 static void setName(const char* n) { strncpy(tName, n, 31); if (tBuf) tBuf->name = n; }
 static long usec() { return std::chrono::duration_cast<std::chrono::microseconds>(std::chrono::steady_clock::now() - gT0).count(); }
 static void rec(const std::string& kind, const std::string& args) {
+	Buf* b = buf();
 	uint64_t s = gSeq.fetch_add(1, std::memory_order_relaxed);
+	if (kind[0] != 'H') gAct.fetch_add(1, std::memory_order_relaxed);
 	std::ostringstream os; os << s << " " << usec() << " " << tName << " " << kind << " " << args;
-	buf()->lines.push_back(os.str());
+	b->lines.push_back(os.str());
 }
 static void dumpAll() {
 	std::lock_guard<std::mutex> l(gBufMutex);
@@ -202,14 +208,30 @@ static int modeTimers(const std::string& xml) {
 		sender = std::thread([&] { setName("sender"); if (waitFlag(extwait, argl("maxms", 20000))) { Event e(ext, Event::EXTERNAL); rec("SEND", ext); ip.receive(e); rec("SENT", ext); } });
 		sent = true;
 	}
+	// fwd=N: a sender thread feeds external events fwd.1 .. fwd.N, one every fwdms ms (C11: autoforward, parent busy while children run)
+	std::thread feeder; std::atomic<bool> feeding(false);
+	if (argl("fwd", 0) > 0) {
+		feeding = true;
+		feeder = std::thread([&] {
+			setName("feeder");
+			for (long i = 1; i <= argl("fwd", 0); i++) {
+				std::this_thread::sleep_for(std::chrono::milliseconds(argl("fwdms", 5)));
+				char en[32]; snprintf(en, 32, "fwd.%ld", i); Event e(en, Event::EXTERNAL); rec("SEND", en); ip.receive(e); rec("SENT", en);
+			}
+			feeding = false;
+		});
+	}
+	bool gquiet = argl("gquiet", 0) != 0; uint64_t lastSeq = gAct.load();   // gquiet=1: quiescence = no record from ANY thread (children included) for `quiet` ms
 	std::string stopwhen = arg("stopwhen", "");
 	while (st != USCXML_FINISHED && usec() < deadline) {
+		if (gquiet) { uint64_t q = gAct.load(); if (q != lastSeq || feeding.load()) { lastSeq = q; lastActivity = usec(); } }
 		if (!stopwhen.empty() && waitFlag(stopwhen, 0)) { rec("STOP", stopwhen); break; }
 		st = ip.step(stopwhen.empty() ? 20 : 2);
 		if (st != USCXML_IDLE) { lastActivity = usec(); rec("R", std::to_string((int)st)); }
 		else if (!sent) { Event e(ext, Event::EXTERNAL); rec("SEND", ext); ip.receive(e); sent = true; lastActivity = usec(); }
 		else if (usec() - lastActivity > quiet) break;
 	}
+	if (feeder.joinable()) feeder.join();
 	rec("END", std::to_string((int)st));
 	if (sender.joinable()) { setFlag(extwait); sender.join(); }
 	if (arg("destroy", "1") == "1") { rec("DESTROY", "begin"); ip = Interpreter(); rec("DESTROY", "end"); }
